@@ -238,7 +238,7 @@ harness!(sse2, 34, c01_sse2_dna_c32_r2_m2, rows_body::<Dna, U32, _, 2, 2, 0, 2, 
 // --- AVX2 ----------------------------------------------------------------------------
 //@ C01 quick 800 AVX2 permute score, DNA, R=1 (L in 0..=32), M=2
 harness!(avx2, 34, c01_avx2_dna_r1_m2, rows_body::<Dna, U32, _, 1, 2, 0, 1, true, 0>(&avx2()));
-//@ C01 thorough 10800 AVX2 gather score, protein, R=1 (L in 0..=32), M=2
+//@ C01 quick 800 AVX2 gather score, protein, R=1 (L in 0..=32), M=2
 harness!(avx2, 34, c01_avx2_protein_r1_m2, rows_body::<Protein, U32, _, 1, 2, 0, 1, true, 0>(&avx2()));
 //@ C01 quick 800 AVX2 permute score_rows_into rows 1..2, DNA, R=2 (L in 33..=64), M=1, free wildcard column
 harness!(avx2, 34, c01_avx2_dna_r2_m1_rows12, rows_body::<Dna, U32, _, 2, 1, 1, 2, false, 0>(&avx2()));
@@ -261,7 +261,7 @@ harness!(sse2, 34, c01_sse2_dna_c16_r1_m1, rows_body::<Dna, U16, _, 1, 1, 0, 1, 
 harness!(avx2, 34, c01_avx2_protein_r1_m1, rows_body::<Protein, U32, _, 1, 1, 0, 1, true, 0>(&avx2()));
 
 // --- dispatcher arms ------------------------------------------------------------------
-//@ C01 thorough 10800 ScoringMatrix::score + score_position via dispatcher, AVX2 arm, DNA, R=1, M=2
+//@ C01 quick 800 ScoringMatrix::score + score_position via dispatcher, AVX2 arm, DNA, R=1, M=2
 harness!(avx2, 34, c01_dispatch_avx2_dna_r1_m2, dispatch_body::<Dna, 1, 2, 1>(Dispatch::Avx2));
 //@ C01 thorough 10800 ScoringMatrix::score + score_position via dispatcher, SSE2 arm, DNA, R=1, M=2
 harness!(avx2, 34, c01_dispatch_sse2_dna_r1_m2, dispatch_body::<Dna, 1, 2, 0>(Dispatch::Sse2));
